@@ -202,8 +202,10 @@ Lemma eff_rule_fields_cur (C : acl_rule_clones_fields = true) : forall S d, rfie
 Proof. intros S d. unfold eff_rule, eff_rule_gen. cbn [rfields]. apply eff_fields_declared. left. exact C. Qed.
 
 (* ---------- VSQL: ALL ON TABLE ---------- *)
-(* when the compiler's list for ALL is (as a set) the operations applicable to the table asked about, a
-   compiled ALL rule without columns carries exactly those *)
-Lemma vsql_all_ops S d t : dall d = true -> dsrc d = true -> rfields (drl d) = [] ->
-  lset_eqb parser_all_table_ops (taclops t) = true -> lset_eqb (rops (eff_rule S d)) (taclops t) = true.
-Proof. intros Ha Hs Hf H. unfold eff_rule, eff_rule_gen. rewrite Ha, Hs, Hf. exact H. Qed.
+(* a compiled VSQL ALL [(columns)] rule carries the documented list, given that the compiler's lists are it *)
+Lemma vsql_all_ops (P : parser_all_table_ops = vsql_all_documented /\ parser_all_columns_table_ops = vsql_all_documented) :
+  forall S d, dall d = true -> dsrc d = true -> rops (eff_rule S d) = vsql_all_documented.
+Proof.
+  intros S d Ha Hs. unfold eff_rule, eff_rule_gen. rewrite Ha, Hs. cbn [rops]. destruct P as [P1 P2].
+  unfold vsql_all. rewrite P1, P2. destruct (is_nil (rfields (drl d))); reflexivity.
+Qed.
